@@ -48,9 +48,11 @@ type c12Pkt struct {
 	syn, fin bool
 	seq      uint32
 	bytes    []byte
+	ts       int // capture timestamp, seconds after the base time
 }
 type c12Op struct {
 	flush bool
+	age   int // flush: >0 = FlushOlderThan / FlushCloseOlderThan(base+age s); 0 = FlushAll
 	pkt   c12Pkt
 }
 type c12Case struct {
@@ -64,12 +66,27 @@ func c12ParseOp(s string) (c12Op, error) {
 	if s == "fl" {
 		return c12Op{flush: true}, nil
 	}
+	if strings.HasPrefix(s, "fo") {
+		n, err := strconv.Atoi(s[2:])
+		if err != nil || n <= 0 {
+			return c12Op{}, fmt.Errorf("flush %q", s)
+		}
+		return c12Op{flush: true, age: n}, nil
+	}
 	parts := strings.Split(s, ".")
+	ts := 0
+	if len(parts) == 4 {
+		n, err := strconv.Atoi(parts[3])
+		if err != nil {
+			return c12Op{}, err
+		}
+		ts, parts = n, parts[:3]
+	}
 	if len(parts) != 3 || len(parts[0]) < 3 {
 		return c12Op{}, fmt.Errorf("packet %q", s)
 	}
 	hd := parts[0]
-	p := c12Pkt{flow: int(hd[0] - 'a'), dir: int(hd[1] - '0')}
+	p := c12Pkt{flow: int(hd[0] - 'a'), dir: int(hd[1] - '0'), ts: ts}
 	if p.flow < 0 || p.flow > 25 || p.dir < 0 || p.dir > 1 {
 		return c12Op{}, fmt.Errorf("packet %q", s)
 	}
@@ -184,27 +201,28 @@ type c12Stream struct {
 }
 
 type c12Ctl struct {
-	pkg      string
-	threads  []*c12Thread
-	cur      int
-	back     chan c12Msg
-	owner    map[interface{}]int // connection object -> thread holding its lock
-	connID   map[interface{}]int
-	nconn    int
-	streams  []*c12Stream
-	events   []string
-	oracle   []string
-	tags     map[string]bool
-	kept     map[int]bool         // streams seen in a pool entry
-	evicted  map[int]bool         // streams whose pool entry was deleted by the remove of another object
-	tainted  map[interface{}]bool // objects on which a stale assembler (recycled in between) processed a packet
-	dirBytes map[string][]byte    // (flow,dir) -> payload bytes delivered, in event order
-	tpool    *tcpassembly.StreamPool
-	rpool    *reassembly.StreamPool
-	ts       time.Time
-	nops     int
-	trace    [][]int // enabled set at every decision of the main phase
-	chosen   []int
+	pkg          string
+	threads      []*c12Thread
+	cur          int
+	back         chan c12Msg
+	owner        map[interface{}]int // connection object -> thread holding its lock
+	connID       map[interface{}]int
+	nconn        int
+	streams      []*c12Stream
+	events       []string
+	oracle       []string
+	tags         map[string]bool
+	kept         map[int]bool         // streams seen in a pool entry
+	evicted      map[int]bool         // streams whose pool entry was deleted by the remove of another object
+	trailEvicted map[int]bool         // streams whose open connection lost its pool entry to the unlocked second remove()
+	tainted      map[interface{}]bool // objects on which a stale assembler (recycled in between) processed a packet
+	dirBytes     map[string][]byte    // (flow,dir) -> payload bytes delivered, in event order
+	tpool        *tcpassembly.StreamPool
+	rpool        *reassembly.StreamPool
+	ts           time.Time
+	nops         int
+	trace        [][]int // enabled set at every decision of the main phase
+	chosen       []int
 }
 
 func (ctl *c12Ctl) fail(clause, detail string) {
@@ -242,12 +260,12 @@ func (ctl *c12Ctl) hook(site string, obj interface{}) {
 		}
 		return
 	}
-	if site == "pool.remove" {
-		ctl.noteRemove(obj)
-	}
 	th.site, th.want = site, obj
 	ctl.back <- c12Msg{tid: th.id}
 	<-th.resume
+	if site == "pool.remove" {
+		ctl.noteRemove(obj, th.id) // the pool section of remove runs now
+	}
 	if site == "conn.lock" {
 		ctl.owner[obj] = th.id
 	}
@@ -256,14 +274,26 @@ func (ctl *c12Ctl) hook(site string, obj interface{}) {
 
 // noteRemove: remove(conn) deletes the map entry of conn.key; when that entry holds another
 // object, that object's stream loses its pool entry without being completed
-func (ctl *c12Ctl) noteRemove(obj interface{}) {
+func (ctl *c12Ctl) noteRemove(obj interface{}, tid int) {
 	key, _, _ := ctl.connInfo(obj)
+	owner, locked := ctl.owner[obj]
+	unlocked := !locked || owner != tid // reassembly FlushWithOptions: second remove() after the lock was released
+	if unlocked {
+		ctl.tags["trailing-remove"] = true
+	}
 	check := func(k string, c interface{}) {
-		if k == key && c != obj {
-			_, st, _ := ctl.connInfo(c)
-			if id := ctl.streamID(st); id >= 0 {
-				ctl.evicted[id] = true
-			}
+		if k != key {
+			return
+		}
+		_, st, closed := ctl.connInfo(c)
+		id := ctl.streamID(st)
+		if id < 0 {
+			return
+		}
+		if unlocked && !closed {
+			ctl.trailEvicted[id] = true
+		} else if c != obj {
+			ctl.evicted[id] = true
 		}
 	}
 	if ctl.pkg == "t" {
@@ -458,17 +488,22 @@ func (ctl *c12Ctl) streamIs(st interface{}, s *c12Stream) bool {
 
 func (ctl *c12Ctl) runOp(th *c12Thread, op c12Op) {
 	ctl.nops++
-	ts := ctl.ts.Add(time.Duration(ctl.nops) * time.Millisecond)
 	th.curPkt = nil
 	th.recycled = false
 	if op.flush {
-		if ctl.pkg == "t" {
+		switch {
+		case ctl.pkg == "t" && op.age > 0:
+			th.tasm.FlushOlderThan(ctl.ts.Add(time.Duration(op.age) * time.Second))
+		case ctl.pkg == "t":
 			th.tasm.FlushAll()
-		} else {
+		case op.age > 0:
+			th.rasm.FlushCloseOlderThan(ctl.ts.Add(time.Duration(op.age) * time.Second))
+		default:
 			th.rasm.FlushAll()
 		}
 		return
 	}
+	ts := ctl.ts.Add(time.Duration(op.pkt.ts) * time.Second)
 	p := op.pkt
 	th.curPkt = &p
 	defer func() { th.curPkt = nil }()
@@ -703,7 +738,7 @@ func (ctl *c12Ctl) addThread(prog []c12Op) *c12Thread {
 // phase are kept (for the exhaustive enumeration of schedules).
 func c12Execute(p c12Case, record bool) (*c12Ctl, string) {
 	ctl := &c12Ctl{pkg: p.pkg, back: make(chan c12Msg), owner: map[interface{}]int{}, connID: map[interface{}]int{},
-		tags: map[string]bool{}, kept: map[int]bool{}, evicted: map[int]bool{}, tainted: map[interface{}]bool{}, dirBytes: map[string][]byte{},
+		tags: map[string]bool{}, kept: map[int]bool{}, evicted: map[int]bool{}, trailEvicted: map[int]bool{}, tainted: map[interface{}]bool{}, dirBytes: map[string][]byte{},
 		ts: time.Unix(1700000000, 0)}
 	if p.pkg == "t" {
 		ctl.tpool = tcpassembly.NewStreamPool(c12TFactory{ctl})
@@ -822,7 +857,9 @@ func (c12) Run(c Case) Result {
 		}
 		if status == "done" && ctl.kept[s.id] && s.completes != 1 {
 			how := "its pool entry was never deleted by another object's remove"
-			if ctl.evicted[s.id] {
+			if ctl.trailEvicted[s.id] {
+				how = "the pool entry of its open connection was deleted by the second remove(conn) that reassembly's FlushWithOptions makes after releasing the connection lock"
+			} else if ctl.evicted[s.id] {
 				how = "its pool entry was deleted by the remove of a recycled connection object that carried the same key"
 			}
 			ctl.fail("C12:complete-once", fmt.Sprintf("stream %d of %s was in the pool and is completed %d times after the final FlushAll; %s", s.id, s.key, s.completes, how))
@@ -966,6 +1003,23 @@ func c12RandomWorkload(rng *rand.Rand, pkg string, nthr int) [][]string {
 		t := rng.Intn(nthr)
 		progs[t] = append(progs[t], "fl")
 	}
+	// capture timestamps 1..6 s; an age-based flusher (FlushOlderThan / FlushCloseOlderThan) somewhere
+	for t := range progs {
+		np := make([]string, len(progs[t])) // fresh slices: the programs above may share backing arrays
+		for i, op := range progs[t] {
+			np[i] = op
+			if op != "fl" {
+				np[i] = fmt.Sprintf("%s.%d", op, 1+rng.Intn(6))
+			}
+		}
+		progs[t] = np
+	}
+	if rng.Intn(3) == 0 {
+		t := rng.Intn(nthr)
+		at := rng.Intn(len(progs[t]) + 1)
+		fo := fmt.Sprintf("fo%d", 2+rng.Intn(7))
+		progs[t] = append(progs[t][:at], append([]string{fo}, progs[t][at:]...)...)
+	}
 	for t := range progs {
 		if len(progs[t]) > 7 {
 			progs[t] = progs[t][:7]
@@ -1017,8 +1071,88 @@ func c12AllSchedules(pkg string, progs [][]string, max int, emit func(sched []in
 	return n
 }
 
+// Directed schedules for the two narrow windows a random schedule rarely hits.
+func c12Directed(rng *rand.Rand) []Case {
+	var cases []Case
+	rep := func(t, n int) []int {
+		s := make([]int, n)
+		for i := range s {
+			s[i] = t
+		}
+		return s
+	}
+	cat := func(parts ...[]int) []int {
+		var s []int
+		for _, p := range parts {
+			s = append(s, p...)
+		}
+		return s
+	}
+	// (1) close between snapshot and lock: a flusher takes its snapshot of the pool at every point of
+	// assembler 0's progress, assembler 0 then runs to the end (closing the connection while an
+	// out-of-order page is still queued), and only then does the flusher lock the connection.
+	closers := map[string][][]string{
+		"t": {
+			{"a0S.1000..1", "a0-.1003.1213.1", "a0F.1001..2"},                    // in-order FIN, page [1003,1005) queued
+			{"a0S.1000..1", "a0F.1003..1", "a0-.1001.1011.2"},                    // queued FIN page pulled in by the data: End
+			{"a0S.1000..1", "a0-.1005.1415.1", "a0-.1003.1213.1", "a0F.1001..2"}, // two pages queued behind the hole
+		},
+		"r": {
+			{"a0S.1000..1", "a1S.1000..1", "a0-.1003.1213.1", "a0F.1001..2", "a1F.1001..2"},
+			{"a0S.1000..1", "a0-.1003.1213.1", "a1S.1000..1", "a1F.1001..2", "a0F.1001..2"},
+		},
+	}
+	for _, pkg := range []string{"t", "r"} {
+		for wi, a := range closers[pkg] {
+			for _, fl := range []string{"fo10", "fl", "fo2"} {
+				progs := [][]string{a, {fl, "b0S.1000..3"}}
+				for i := 0; i <= 3*len(a)+2; i++ {
+					cases = append(cases, c12MkCase(fmt.Sprintf("C12-dir-snap-%s-%d-%s-%d", pkg, wi, fl, i), pkg, progs,
+						cat(rep(0, i), rep(1, 1), rep(0, 40), rep(1, 20))))
+				}
+			}
+		}
+	}
+	// (2) lose the lookup race twice: assembler 1's single packet looks the connection up, finds it closed
+	// when it gets the lock, looks up again, obtains the successor and that one is closed, too.
+	twice := [][]string{{"a0S.1000..1", "a0-.1003.1213.1", "a0F.1001..1", "a0S.1000..2", "a0F.1001..2"}, {"a0-.1001.1011.3"}}
+	twiceFin := [][]string{{"a0S.1000..1", "a0F.1001..1", "a0S.1000..2", "a0-.1003.1213.2", "a0F.1001..2"}, {"a0F.1001..3"}}
+	for wi, progs := range [][][]string{twice, twiceFin} {
+		n := 3*len(progs[0]) + 2
+		for i := 3; i < n; i++ {
+			for j := i; j < n; j++ {
+				for k := j; k < n; k++ {
+					for _, pkg := range []string{"t", "r"} {
+						if pkg == "r" && (i+j+k)%5 != 0 {
+							continue
+						}
+						cases = append(cases, c12MkCase(fmt.Sprintf("C12-dir-twice-%s-%d-%d-%d-%d", pkg, wi, i, j, k), pkg, progs,
+							cat(rep(0, i), rep(1, 1), rep(0, j-i), rep(1, 1), rep(0, k-j), rep(1, 1), rep(0, 40), rep(1, 20))))
+					}
+				}
+			}
+		}
+	}
+	// the same with three assemblers: the successor connection is made and closed by a third one
+	three := [][]string{{"a0S.1000..1", "a0-.1003.1213.1", "a0F.1001..1"}, {"a0-.1001.1011.3"}, {"a0S.1000..2", "a0F.1001..2", "a0S.1000..3"}}
+	for i := 0; i < 150; i++ {
+		pkg := "t"
+		if i%5 == 4 {
+			pkg = "r"
+		}
+		// thread 0 until its FIN is being processed, then bursts of 1 and 2
+		s := cat(rep(0, 6+rng.Intn(5)), rep(1, 1), rep(0, 1+rng.Intn(4)))
+		for len(s) < 40 {
+			s = append(s, rep(1+rng.Intn(2), 1+rng.Intn(4))...)
+		}
+		cases = append(cases, c12MkCase(fmt.Sprintf("C12-dir-three-%d", i), pkg, three, s))
+	}
+	return cases
+}
+
 func (c12) Gen(rng *rand.Rand, tier string) []Case {
 	var cases []Case
+	cases = append(cases, c12Directed(rng)...)
 	nrand := 300
 	if tier == "thorough" {
 		nrand = 3000
@@ -1042,6 +1176,7 @@ func (c12) Gen(rng *rand.Rand, tier string) []Case {
 			{"closerecycle", [][]string{{"a0S.1000.", "a0F.1001.", "b0S.1000."}, {"a0-.1001.1011"}}},
 			{"samedir", [][]string{{"a0S.1000.", "a0-.1003.1213"}, {"a0-.1001.1011", "a0F.1005."}}},
 			{"flusher", [][]string{{"a0S.1000.", "a0-.1001.1011", "b0S.1000."}, {"fl", "a0-.1003.1213"}}},
+			{"ageflusher", [][]string{{"a0S.1000..1", "a0-.1003.1213.1", "a0F.1001..2"}, {"fo10", "a0S.1000..3"}}},
 		}
 		for _, w := range work {
 			for _, pkg := range []string{"t", "r"} {
